@@ -96,6 +96,8 @@ class RecKernel(ModelMixin, TransitionMixin, TuningMixin):
             return None
         if not self.needs_history:
             return "not-requested"
+        if "p_" + self.identifier not in history:
+            return "not-tracked"            # the user deselected this kernel's key: the engine must not track it on its own
         return [c.v for c in history["p_" + self.identifier].cells]
 
     def _tune_fast(self, key, ks, ms, epoch, history):
@@ -225,12 +227,19 @@ def lifecycle_ok(schedule, chunk, hist, store_ks, upfront) -> bool:
     return True
 
 
+TRACK = [k for k in os.environ.get("TRACK", "").split(",") if k]          # explicit tracked position keys ("" = the engine's default)
+
+
 def chains_ok(schedule, chunk, hist, store_ks, upfront) -> bool:
     nk = len(hist)
-    e, log = run(schedule, chunk, hist, store_ks, upfront)
+    e, log = run(schedule, chunk, hist, store_ks, upfront, tracked=TRACK or None)
     r = e.get_results()
     total = sum(d for _, d, _ in schedule)
+    if TRACK and set(r.get_samples()) != set(TRACK):          # exactly the requested keys are stored (deselected keys are respected)
+        return False
     for kid in range(nk):
+        if TRACK and f"p_k{kid}" not in TRACK:
+            continue
         cells, post, _ = expected_chain(schedule, kid)
         got = [c.v for c in r.get_samples()[f"p_k{kid}"].cells]
         if got != cells:
